@@ -324,6 +324,31 @@ func (r *run) scenario() {
 	r.mu.Unlock()
 	returned := make(chan struct{})
 	go func() { srv.TableMaintainer(); close(returned) }()
+	// background noise in half of the scenarios: unsolicited responses from a stranger. They change nothing (no
+	// transaction matches) but each one takes the server's write lock, as real traffic does all the time
+	stopChatter := make(chan struct{})
+	var chatterDone sync.WaitGroup
+	if rng.Intn(2) == 0 {
+		chatterDone.Add(1)
+		go func() {
+			defer chatterDone.Done()
+			stranger := &net.UDPAddr{IP: net.IPv4(47, 7, 7, 7).To4(), Port: 7777}
+			var sid krpc.ID
+			sid[0] = 0x77
+			b := sim.Encode(sim.D("t", "zz", "y", "r", "r", sim.D("id", sid[:])))
+			for {
+				select {
+				case <-stopChatter:
+					return
+				default:
+				}
+				if !r.conn.Inject(b, stranger, 2*time.Second) {
+					time.Sleep(time.Millisecond)
+				}
+			}
+		}()
+	}
+	defer func() { close(stopChatter); chatterDone.Wait() }()
 
 	var late []pending
 	lastActivity := time.Now()
